@@ -148,20 +148,23 @@ Record params := mkP {
   p_nf : text * bool;          (* add_notfound_view: context, exception_only *)
   p_fb : text * bool;
   p_exc : text * bool;         (* add_exception_view: default context, exception_only *)
-  p_default_view_ctx : bool    (* default_exceptionresponse_view returns its context *)
+  p_default_view_ctx : bool;   (* default_exceptionresponse_view returns its context *)
+  p_perm_checks : bool         (* _call_view(secure=False) checks the predicates of a single secured view *)
 }.
 
 Definition code_params : params :=
   mkP hidden_names set_in_with set_after uses_combined exc_view_name iev_none_raises iev_reraise_catches
       handler_catches handler_reraises_original tween_catches default_excview_contexts
       (nf_context, nf_exception_only) (fb_context, fb_exception_only) (exc_default_context, exc_exception_only)
-      default_view_returns_context.
+      default_view_returns_context permissive_checks_predicates.
 
-Definition spec_params : params :=
+(* [b]: whether a permissive call honours predicates; the property's value is true *)
+Definition spec_params_b (b : bool) : params :=
   mkP [hn_response; hn_exc_info; hn_exception] [hn_exception; hn_exc_info] [hn_exception; hn_exc_info]
       true [] cn_HTTPNotFound cn_Exception cn_HTTPNotFound true cn_Exception
       [cn_IExceptionResponse; cn_WebobWSGIHTTPException]
-      (cn_HTTPNotFound, true) (cn_HTTPForbidden, true) (cn_Exception, true) true.
+      (cn_HTTPNotFound, true) (cn_HTTPForbidden, true) (cn_Exception, true) true b.
+Definition spec_params : params := spec_params_b true.
 
 (* ------------------------------------------------------------------ *)
 (* configuration: directives -> registrations *)
@@ -236,8 +239,8 @@ Definition bodies_of (P : params) (nm : named) (user : list vdecl) : list (N * b
 Inductive under_prog :=
 | UPass                                   (* return handler(request) *)
 | URaise (e : N)                          (* raise e without calling the handler *)
-| UCatch (rr : bool) (thn : option N).    (* try: r = handler(request)
-                                             except Exception: r = request.invoke_exception_view(reraise=rr)
+| UCatch (rr sec : bool) (thn : option N). (* try: r = handler(request)
+                                             except Exception: r = request.invoke_exception_view(reraise=rr, secure=sec)
                                              then raise thn, or return r *)
 
 Record rinfo := mkRI {
@@ -257,21 +260,45 @@ Definition status_of (W : world) (e : N) : N := x_status (find_exc (w_excs W) e)
 
 Definition add_log (st : state) (ev : event) : state := mkSt (st_attrs st) (st_log st ++ [ev]).
 
-(* a (derived) view callable runs: secured_view, then the body *)
-Definition run_body (P : params) (W : world) (deny : bool) (site tag ctx : N) (a : amap)
+(* default_exceptionresponse_view: "if not isinstance(context, Exception): context = request.exception or context" *)
+Definition ctx_returned (W : world) (ctx : N) (a : amap) : N :=
+  if isa W cn_Exception ctx then ctx
+  else match aget hn_exception a with Some p => p | None => ctx end.
+
+(* a (derived) view callable runs: secured_view (skipped through __call_permissive__ when not [sec]), then the body *)
+Definition run_body (P : params) (W : world) (sec deny : bool) (site tag ctx : N) (a : amap)
     : outcome * list event * amap :=
   let b := body_of (w_bodies W) tag in
-  if b_perm b && deny then (Raise (if N.eqb site site_main then id_h_forb else fresh_forb site), [], a)
+  if sec && b_perm b && deny then (Raise (if N.eqb site site_main then id_h_forb else fresh_forb site), [], a)
   else
     let ev := EBody tag ctx (snap a) in
     let a1 := if b_touch b then aset hn_response (resp_obj tag) a else a in
     match b_act b with
     | ARet => (Resp (RView tag), [ev], a1)
     | ARetCtx =>
-        if p_default_view_ctx P && negb (N.eqb (status_of W ctx) 0) then (Resp (RExc ctx), [ev], a1)
+        let c := ctx_returned W ctx a in
+        if p_default_view_ctx P && negb (N.eqb (status_of W c) 0) then (Resp (RExc c), [ev], a1)
         else (Raise (fresh_ve site), [ev], a1)
     | ARaise e => (Raise e, [ev], a1)
     end.
+
+(* _call_view(secure=False): "view_callable = getattr(view_callable, '__call_permissive__', view_callable)".
+   A secured single view carries the __call_permissive__ of its innermost secured_view wrapper (copied outwards by
+   preserve_view_attrs, also over predicated_view): its body runs WITHOUT the predicate check.  A MultiView's
+   __call_permissive__ matches by predicates first.  An unsecured view has no such attribute. *)
+Definition call_component_p (P : params) (rq : request) (c : component) : option N :=
+  match c with
+  | CView v => if r_secured v && negb (p_perm_checks P) then Some (r_tag v) else call_reg rq v
+  | CMulti m => mv_call rq (get_views m rq)
+  end.
+Fixpoint call_loop_p (P : params) (rq : request) (l : list component) (pme : bool) : result :=
+  match l with
+  | [] => if pme then NotFoundPme else NotFoundNone
+  | c :: r => match call_component_p P rq c with Some t => Ran t | None => call_loop_p P rq r true end
+  end.
+Definition call_view_sec (P : params) (R : registry) (sec : bool) (cls : N) (rq : request) : result :=
+  if sec then call_view R cls rq
+  else call_loop_p P rq (find_views R cls (q_req_sro rq) (q_ctx_sro rq) (q_view_name rq)) false.
 
 (* the request as seen by the exception-view lookup: context = the exception object *)
 Definition exc_request (P : params) (W : world) (ri : rinfo) (e : N) : request :=
@@ -290,17 +317,17 @@ Definition fresh_of_class (cls : text) (site : N) : N :=
 
 Definition set_all (names : list text) (v : N) (a : amap) : amap := fold_left (fun a n => aset n v a) names a.
 
-(* ViewMethodsMixin.invoke_exception_view(exc_info, reraise=rr) for the exception object e.
+(* ViewMethodsMixin.invoke_exception_view(exc_info, reraise=rr, secure=sec) for the exception object e.
    The value of exc_info is represented by the object it carries (exc_info[1]). *)
-Definition iev (P : params) (W : world) (ri : rinfo) (site : N) (rr : bool) (e : N) (st : state)
+Definition iev (P : params) (W : world) (ri : rinfo) (site : N) (rr sec : bool) (e : N) (st : state)
     : outcome * state :=
   let '((res, evs), attrs') :=
     hide_attrs (p_hidden P)
       (fun a =>
          let a := set_all (p_set_in P) e a in
-         match call_view (w_reg W) exc_classifier_id (exc_request P W ri e) with
+         match call_view_sec P (w_reg W) sec exc_classifier_id (exc_request P W ri e) with
          | Ran tag =>
-             let '(o, evs, a2) := run_body P W (ri_deny ri) site tag e a in
+             let '(o, evs, a2) := run_body P W sec (ri_deny ri) site tag e a in
              ((Some o, evs), a2)
          | NotFoundPme => ((Some (Raise (fresh_pme site)), []), a)
          | NotFoundNone => ((None, []), a)
@@ -325,7 +352,7 @@ Definition main_handler (P : params) (W : world) (ri : rinfo) (st : state) : out
   | None =>
       match call_view (w_reg W) view_classifier (ri_req ri) with
       | Ran tag =>
-          let '(o, evs, a) := run_body P W (ri_deny ri) site_main tag ctx_resource (st_attrs st) in
+          let '(o, evs, a) := run_body P W true (ri_deny ri) site_main tag ctx_resource (st_attrs st) in
           (o, mkSt a (st_log st ++ evs))
       | NotFoundPme => (Raise id_h_pme, st)
       | NotFoundNone => (Raise id_h_nf, st)
@@ -337,13 +364,13 @@ Definition under_tween (P : params) (W : world) (ri : rinfo) (st : state) : outc
   match ri_under ri with
   | UPass => main_handler P W ri st
   | URaise e => (Raise e, st)
-  | UCatch rr thn =>
+  | UCatch rr sec thn =>
       let '(o, st1) := main_handler P W ri st in
       let '(o2, st2) :=
         match o with
         | Raise e =>
             if isa W cn_Exception e then
-              let '(o2, st2) := iev P W ri site_under rr e st1 in
+              let '(o2, st2) := iev P W ri site_under rr sec e st1 in
               (o2, add_log st2 (EIev e (snap (st_attrs st1)) o2 (snap (st_attrs st2))))
             else (o, st1)
         | Resp _ => (o, st1)
@@ -360,7 +387,7 @@ Definition excview_tween (P : params) (W : world) (ri : rinfo) (o : outcome) (st
   | Resp r => (Resp r, st)
   | Raise e =>
       if isa W (p_tween_catches P) e then
-        match iev P W ri site_tween false e st with
+        match iev P W ri site_tween false true e st with
         | (Resp r, st') => (Resp r, st')
         | (Raise e2, st') =>
             if isa W (p_handler_catches P) e2
@@ -407,9 +434,44 @@ Definition seen_snapshot (e : N) : snapshot := [None; Some e; Some e].
 Definition after_snapshot (before : snapshot) (e : N) : snapshot :=
   [match before with r :: _ => r | [] => None end; Some e; Some e].
 
-(* [rr]: None = the excview tween; Some b = a direct invoke_exception_view(reraise=b) call.
+(* what one allowed winner [t] must have produced.
+   [rr]: None = the excview tween; Some b = a direct invoke_exception_view(reraise=b) call; [sec]: secure=.
    [mid]: the view-body events of the rendering. *)
-Definition judge_render (sregs : list reg) (W : world) (ri : rinfo) (rr : option bool)
+Definition judge_winner (W : world) (ri : rinfo) (rr : option bool) (sec : bool)
+    (e : N) (before : snapshot) (mid : list event) (o : outcome) (after : snapshot) (t : N) : bool :=
+  let b := body_of (w_bodies W) t in
+  if sec && b_perm b && ri_deny ri then
+    (* the policy refuses the secured exception view: its body does not run, the attributes are restored and the
+       refusal (a framework-made HTTPForbidden) is what propagates -- it does not enter 403 handling *)
+    match mid with [] => true | _ => false end
+    && snap_eqb after before
+    && match rr with
+       | Some true => outcome_eqb o (Raise e)
+       | _ => match o with Raise x => N.leb 1000 x && isa W cn_HTTPForbidden x | _ => false end
+       end
+  else
+    match mid with
+    | [EBody t' c s] =>
+        N.eqb t' t && N.eqb c e && snap_eqb s (seen_snapshot e)
+        && match b_act b with
+           | ARet => outcome_eqb o (Resp (RView t)) && snap_eqb after (after_snapshot before e)
+           | ARetCtx =>
+               if N.eqb (status_of W e) 0 then true     (* not a response: the property is silent *)
+               else outcome_eqb o (Resp (RExc e)) && snap_eqb after (after_snapshot before e)
+           | ARaise v =>
+               (* the view itself failed: its exception is the one that propagates and the attributes are
+                  restored -- except an HTTPNotFound, which the code cannot tell from "no view applies" *)
+               if isa W cn_HTTPNotFound v then true
+               else snap_eqb after before
+                    && match rr with
+                       | Some true => outcome_eqb o (Raise (if isa W cn_Exception v then e else v))
+                       | _ => outcome_eqb o (Raise v)
+                       end
+           end
+    | _ => false
+    end.
+
+Definition judge_render (sregs : list reg) (W : world) (ri : rinfo) (rr : option bool) (sec : bool)
     (e : N) (before : snapshot) (mid : list event) (o : outcome) (after : snapshot) : bool :=
   let ws := spec_winners exc_classifier_id sregs (exc_request spec_params W ri e) in
   match ws with
@@ -424,42 +486,20 @@ Definition judge_render (sregs : list reg) (W : world) (ri : rinfo) (rr : option
                          | Raise x => N.leb 1000 x && isa W cn_HTTPNotFound x
                          | _ => false end
          end
-  | _ =>
-      if existsb (fun w => b_perm (body_of (w_bodies W) (r_tag w))) ws && ri_deny ri then true   (* C05's territory *)
-      else
-      match mid with
-      | [EBody t c s] =>
-          existsb (fun w => N.eqb (r_tag w) t) ws
-          && N.eqb c e && snap_eqb s (seen_snapshot e)
-          && match b_act (body_of (w_bodies W) t) with
-             | ARet => outcome_eqb o (Resp (RView t)) && snap_eqb after (after_snapshot before e)
-             | ARetCtx =>
-                 if N.eqb (status_of W e) 0 then true     (* not a response: the property is silent *)
-                 else outcome_eqb o (Resp (RExc e)) && snap_eqb after (after_snapshot before e)
-             | ARaise v =>
-                 (* the view itself failed: its exception is the one that propagates and the attributes are
-                    restored -- except an HTTPNotFound, which the code cannot tell from "no view applies" *)
-                 if isa W cn_HTTPNotFound v then true
-                 else snap_eqb after before
-                      && match rr with
-                         | Some true => outcome_eqb o (Raise (if isa W cn_Exception v then e else v))
-                         | _ => outcome_eqb o (Raise v)
-                         end
-             end
-      | _ => false
-      end
+  | _ => existsb (fun w => judge_winner W ri rr sec e before mid o after (r_tag w)) ws
   end.
 
 Definition is_exc_body (ev : event) : bool :=
   match ev with EBody _ c _ => negb (N.eqb c ctx_resource) | _ => false end.
 
 (* events before the probe: ordinary bodies, then (for a catching tween) exception-view bodies + EIev *)
-Fixpoint judge_under (sregs : list reg) (W : world) (ri : rinfo) (rr : bool) (mid : list event) (l : list event)
+Fixpoint judge_under (sregs : list reg) (W : world) (ri : rinfo) (rr sec : bool) (mid : list event) (l : list event)
     : bool :=
   match l with
   | [] => true
-  | EIev e before o after :: r => judge_render sregs W ri (Some rr) e before (rev mid) o after && judge_under sregs W ri rr [] r
-  | ev :: r => if is_exc_body ev then judge_under sregs W ri rr (ev :: mid) r else judge_under sregs W ri rr mid r
+  | EIev e before o after :: r =>
+      judge_render sregs W ri (Some rr) sec e before (rev mid) o after && judge_under sregs W ri rr sec [] r
+  | ev :: r => if is_exc_body ev then judge_under sregs W ri rr sec (ev :: mid) r else judge_under sregs W ri rr sec mid r
   end.
 
 Fixpoint split_probe (l : list event) (acc : list event) : option (list event * outcome * snapshot * list event) :=
@@ -469,24 +509,32 @@ Fixpoint split_probe (l : list event) (acc : list event) : option (list event * 
   | ev :: r => split_probe r (ev :: acc)
   end.
 
-Definition judge (sregs : list reg) (W : world) (ri : rinfo) (evs : list event) : bool :=
+Definition sec_of (u : under_prog) : bool := match u with UCatch _ sec _ => sec | _ => true end.
+Definition rr_of (u : under_prog) : bool := match u with UCatch rr _ _ => rr | _ => false end.
+
+(* [tolerant]: direct invoke_exception_view(secure=False) calls are not judged (known finding
+   C14-permissive-skips-predicates) *)
+Definition judge_gen (tolerant : bool) (sregs : list reg) (W : world) (ri : rinfo) (evs : list event) : bool :=
   match split_probe evs [] with
   | None => false
   | Some (pre, o1, s1, post) =>
       match rev post with
       | EFinal o2 s2 fin :: rmid =>
           let mid := rev rmid in
-          judge_under sregs W ri (match ri_under ri with UCatch rr _ => rr | _ => false end) [] pre
+          ((tolerant && negb (sec_of (ri_under ri)))
+           || judge_under sregs W ri (rr_of (ri_under ri)) (sec_of (ri_under ri)) [] pre)
           && opt_N_eqb fin (nth 2 s2 None)
           && match o1 with
              | Resp r => match mid with [] => true | _ => false end && outcome_eqb o2 o1 && snap_eqb s2 s1
              | Raise e =>
-                 if isa W cn_Exception e then judge_render sregs W ri None e s1 mid o2 s2
+                 if isa W cn_Exception e then judge_render sregs W ri None true e s1 mid o2 s2
                  else match mid with [] => true | _ => false end && outcome_eqb o2 o1 && snap_eqb s2 s1
              end
       | _ => false
       end
   end.
+
+Definition judge := judge_gen false.
 
 (* ------------------------------------------------------------------ *)
 (* wire glue *)
@@ -528,7 +576,8 @@ Definition get_under (v : val) : option under_prog :=
   match v with
   | VL [VI 0%Z] => Some UPass
   | VL [VI 1%Z; VI e] => Some (URaise (Z.to_N e))
-  | VL [VI 2%Z; rr; thn] => olet rr := get_bool rr in olet thn := get_opt get_N thn in Some (UCatch rr thn)
+  | VL [VI 2%Z; rr; sec; thn] =>
+      olet rr := get_bool rr in olet sec := get_bool sec in olet thn := get_opt get_N thn in Some (UCatch rr sec thn)
   | _ => None
   end.
 Definition get_rinfo (v : val) : option (N * rinfo) :=
@@ -593,7 +642,8 @@ Definition event_status_ok (W : world) (v : val) : bool :=
 
 (* case = [named; [decl ...]; [exc ...]; [rinfo ...]; observed]   observed = [] or [[event ...] per request]
    answer = [[model trace; judge of the model trace; judge of the observed trace (1/0; 2 when none given);
-              winners (tags) of the exception arriving at the excview tween in the model] per request] *)
+              winners (tags) of the exception arriving at the excview tween in the model;
+              the tolerant judge of the observed trace] per request] *)
 Definition run_C14 (v : val) : val :=
   ret_or_bad (
     match v with
@@ -626,7 +676,15 @@ Definition run_C14 (v : val) : val :=
                    end
                | None => VI 2
                end;
-               arriving])
+               arriving;
+               match nth_error observed i with
+               | Some ob =>
+                   match map_opt get_event ob with
+                   | Some evs => vbool (judge_gen true sregs SW ri evs && forallb (event_status_ok SW) ob)
+                   | None => VI 0
+                   end
+               | None => VI 2
+               end])
            (combine (seq 0 (length reqs)) reqs)))
     | _ => None
     end).
